@@ -290,6 +290,7 @@ def run(chk, repo, tier):
     chk.need('R16.4', n_calls, 15, 'molecule accessor calls in edits')
     # ---- R16.5 ------------------------------------------------------------------
     check_run_reactants(chk, repo)
+    _class_state(chk, repo)
     # ---- R16.6 ------------------------------------------------------------------
     rdr = rd['Read']
     paths = sym.summarize(rdr)
@@ -355,6 +356,11 @@ def run(chk, repo, tier):
                         chk, 'R16.9', repo, RQ, '%s.%s' % (c.name, s_.name),
                         '%s.%s is unchanged in normal form from its '
                         'reviewed reference' % (c.name, s_.name))
+
+
+def _class_state(chk, repo):
+    from . import c17
+    c17.class_state(chk, repo, 'R16.5')
 
 
 def thorough(chk, repo):
